@@ -128,19 +128,36 @@ Theorem C07_guardslice2_room : forall l c n,
 Proof. exact guardslice2_room. Qed.
 Print Assumptions C07_guardslice2_room.
 
-(* refuted clause "recursion depth is bounded": the Go traversal of ast.Preorder (same shape: Parser.Parse noLazy) uses
-   exactly as many nested Go frames as the input has nesting levels - for every n there is an accepted input of length
-   2n with n frames, and n unclosed brackets are only rejected after n frames *)
-Theorem C07_preorder_depth_unbounded : forall n, (1 <= n)%nat ->
-  exists s, length s = (2 * n)%nat /\ preorder s = (Ok nil, n).
-Proof. exact preorder_depth_unbounded. Qed.
-Print Assumptions C07_preorder_depth_unbounded.
+(* the Go traversal of ast.Preorder (same shape: Parser.Parse noLazy) after fix 62dcdd9, with the limit regenerated from the
+   source (Gen/Consts.go_types_MAX_RECURSE): the counter of nested decodeArray/decodeObject frames never exceeds MAX_RECURSE,
+   for every input *)
+Definition max_recurse : nat := Z.to_nat go_types_MAX_RECURSE.
 
-Theorem C07_preorder_open_depth_unbounded : forall n, preorder (opens n) = (ErrEOF, n).
-Proof. exact preorder_open_depth_unbounded. Qed.
-Print Assumptions C07_preorder_open_depth_unbounded.
+Theorem C07_preorder_depth_bounded : forall s, (snd (preorder max_recurse s) <= max_recurse)%nat.
+Proof. exact (preorder_depth_bounded max_recurse). Qed.
+Print Assumptions C07_preorder_depth_bounded.
 
-(* traversals of a loaded tree (Node.Interface, MarshalJSON of a loaded node, SortKeys(true), LoadAll): frames = height *)
+(* up to the limit the depth used is exactly the nesting depth ... *)
+Theorem C07_preorder_nested_upto_limit : forall n, (1 <= n <= max_recurse)%nat ->
+  preorder max_recurse (opens n ++ closes n) = (Ok nil, n).
+Proof. exact (preorder_nested_upto_limit max_recurse). Qed.
+Print Assumptions C07_preorder_nested_upto_limit.
+
+Theorem C07_preorder_open_upto_limit : forall n, (n <= max_recurse)%nat -> preorder max_recurse (opens n) = (ErrEOF, n).
+Proof. exact (preorder_open_upto_limit max_recurse). Qed.
+Print Assumptions C07_preorder_open_upto_limit.
+
+(* ... and deeper nesting, closed or not, whatever follows, is refused with an ordinary error value after exactly MAX_RECURSE frames *)
+Theorem C07_preorder_beyond_limit_rejected : forall n X, (max_recurse < n)%nat ->
+  preorder max_recurse (opens n ++ X) = (ErrRecurse, max_recurse).
+Proof. exact (preorder_beyond_limit_rejected max_recurse). Qed.
+Print Assumptions C07_preorder_beyond_limit_rejected.
+
+Example C07_max_recurse_value : max_recurse = 4096%nat.
+Proof. reflexivity. Qed.
+
+(* traversals of a loaded tree (Node.Interface, MarshalJSON of a loaded node, SortKeys(true), LoadAll): frames = height; trees
+   loaded from documents have height <= MAX_RECURSE (native skipper / Parse limit), hand-built trees are the caller's *)
 Theorem C07_tree_walk_depth_is_height : forall t, walk 0 t = height t.
 Proof. exact tree_walk_depth_is_height. Qed.
 Print Assumptions C07_tree_walk_depth_is_height.
